@@ -667,6 +667,10 @@ def suggest_clauses(st, it, c, res, mode):
         else:
             qpre_on, qtrail_on = cpre, ctrail
         # ---- C03: the transliteration is always a candidate
+        if convw is None and wl > 0 and not shape.get("concrete_only"):
+            # the code never converted the word as typed (it converted something else, or nothing): the transliteration of the typed word is
+            # still what must be offered - whatever the converter answers for it
+            convw = orc.conv(word)
         if convw is not None:
             tr_on = qpre_on + list(convw) + qtrail_on
             tr_off = cpre + list(convw) + ctrail
@@ -1530,6 +1534,10 @@ def translit_search(vs):
     runs = ["", ",", ",,", ".", "..", "...", "!", "?", "(", ")", "\"", "-", ";", ",,,", ".,", "()"]
     texts = [p + w + t for w in words for p in runs[:8] for t in runs]
     texts += [t for t in SPECIAL_TERMS + [":`)", "(:`)", ":`:`", "a:`", "`", "``", ":`", ".", "..", ",,", ";)", "()"] if all(ch in keys for ch in t)]
+    # letter case carries meaning in Avro, alone and next to a neighbour: every pair of letters in both cases, and pairs inside a word
+    import string
+    texts += [a + b for a in string.ascii_letters for b in string.ascii_letters]
+    texts += [x + a + b + y for a in "nNgGjJ" for b in "gGjJhH" for x in ("b", "bho") for y in ("o", "al")]
     texts = list(dict.fromkeys(texts))
     scs = []
     for t in texts:
